@@ -381,13 +381,14 @@ func ReadFile(name string) ([]byte, error) {
 
 // Handle is an open file.
 type Handle struct {
-	Name   string
-	write  bool
-	app    bool // O_APPEND
-	wpos   int
-	rpos   int
-	closed bool
-	std    int // 0 stdin, 1 stdout, 2 stderr, -1 regular
+	Name            string
+	write           bool
+	app             bool // O_APPEND
+	wpos            int
+	lastAt, lastLen int // the last sector written through this handle
+	rpos            int
+	closed          bool
+	std             int // 0 stdin, 1 stdout, 2 stderr, -1 regular
 }
 
 var (
@@ -526,6 +527,7 @@ func (h *Handle) Write(b []byte) (int, error) {
 			cur = append(cur, make([]byte, end-len(cur))...)
 		}
 		copy(cur[h.wpos:], b[written:written+n])
+		h.lastAt, h.lastLen = h.wpos, n
 		h.wpos += n
 		p.FS.Files[h.Name] = cur
 		rec.Result = fmt.Sprintf("ok %d", n)
@@ -669,6 +671,11 @@ func (h *Handle) Close() error {
 	}
 	rec, f := p.step(SClose, h.Name)
 	if f != nil && f.Kind == FCloseEIO {
+		// close reports a deferred write error: the last sector written
+		// through this handle never reached the medium
+		if cur := p.FS.Files[h.Name]; h.lastLen > 0 && h.lastAt+h.lastLen <= len(cur) && h.lastAt+h.lastLen == len(cur) {
+			p.FS.Files[h.Name] = cur[:h.lastAt]
+		}
 		rec.Result = "EIO"
 		return pathErr("close", h.Name, syscall.EIO)
 	}
